@@ -107,6 +107,8 @@ fn cmd_conn_trace(a: &HashMap<String, String>) -> i32 {
     let pools: Vec<Arc<frames::Pool>> = vec![Arc::new(frames::Pool::new("C")), Arc::new(frames::Pool::new("U"))];
     let mut w = std::io::BufWriter::new(std::fs::File::create(out).expect("create trace"));
     let mut total = 0usize;
+    // --chunks a,b,c : long pre-filled sessions read in fixed-size pieces
+    let chunks: Vec<usize> = a.get("chunks").map(|s| s.split(',').filter_map(|x| x.parse().ok()).collect()).unwrap_or_default();
     for s in 0..sessions {
         let fl = match flavor.as_str() {
             "both" => {
@@ -131,8 +133,9 @@ fn cmd_conn_trace(a: &HashMap<String, String>) -> i32 {
             noka: a.get("noka").map(|s| s == "1").unwrap_or(false),
             kaheavy: a.get("kaheavy").map(|s| s == "1").unwrap_or(false),
             fixed: None,
-            seg: None,
-            p_err: None,
+            seg: if chunks.is_empty() { None } else { Some(6) },
+            p_err: if chunks.is_empty() { None } else { Some(0.0) },
+            chunk: if chunks.is_empty() { 0 } else { chunks[(s as usize) % chunks.len()] },
         };
         let evs = if fl == "blocking" { conn::trace_blocking(pool, &tc) } else { conn::trace_tokio(pool, &tc) };
         for e in evs {
